@@ -240,3 +240,19 @@ PROPS["C17"] = {
     "level_text": "Every declaration of the bounded grammar is really expanded by the real derive inside the real compiler, in both build profiles, and its four decoders are checked on all 256 byte values against independently computed tables; the width rule is additionally decided for every maximum discriminant and every declared width by driving parse_width directly.",
     "level_note": "A bounded grammar of declarations, not all enums; the probe (E4) depends on the internal names parse_width/parse_variants and is skipped (never an alarm) if they disappear.",
 }
+
+# every sequence-level check also runs the lengths beyond the small-scope bound (DESIGN.md C4b)
+LONG_NOTE = ("; plus, with one pattern per length and positional arguments restricted to ends / word boundaries: long lengths (4 and 8 machine words +-1, 16 words + 3) "
+             "and huge lengths (64, 65, 128 words +-1; 4096 and 8192 symbols +-1; every integer constant of the subject's non-test sources read as symbols, bytes, bits or words, +-1; up to 70000 symbols)")
+for _pid in ["C01", "C02", "C03", "C04", "C06", "C07", "C08", "C10", "C11", "C12", "C13", "C18", "C19", "C20"]:
+    _b = PROPS[_pid]["bound"]
+    PROPS[_pid]["bound"] = {k: v + LONG_NOTE for k, v in _b.items()} if isinstance(_b, dict) else _b + LONG_NOTE
+PROPS["C03"]["rule"] += "; positions whose bit offset does not fit a machine word (usize::MAX, usize::MAX/BITS (+1,+2), 1<<61..1<<63) through get, nth, [i] and every range form"
+PROPS["C06"]["rule"] += "; extend / Extend::extend / collect-then-append through iterators reporting inexact size hints (6 (lower, upper, actual) combinations)"
+PROPS["C18"]["rule"] += "; each value also through serialize_into/deserialize_from over an io::Read handing out one byte per call, to_writer/from_reader and to_value/from_value"
+PROPS["C19"]["rule"] += "; every well-formed 2-byte UTF-8 sequence (and a family of 3/4-byte ones) before, after and inside an acceptable run"
+PROPS["C05"]["rule"] += "; symbol-level Display (where the codec has one) and u8::from(symbol) against to_char / to_bits"
+PROPS["C17"]["rule"] += "; G7: doc comments and unrelated attributes on the enum and its variants; G4 varies how alternatives are spread over #[alt] attributes"
+PROPS["C16"]["rule"] += "; kmer!(lit, storage) forms in the negatives; dna!/iupac! literals beyond 64 machine words (2049, 2100 / 1025, 1100 symbols)"
+PROPS["C08"]["rule"] += "; iterator protocol exploration of KmerIter (every {next, nth(k)} sequence up to depth 2 followed by every terminal consumer)"
+PROPS["C11"]["rule"] += "; iterator protocol exploration: every {next, nth(0), nth(1), nth(2), nth(n+1)} sequence up to depth 3/4 followed by each of {drain, count, last, size_hint, fold, skip(1), step_by(2), skip(2).nth(1)} on fresh iterators against the model list"
